@@ -86,7 +86,7 @@ PLAN = {
         "level": "exploration",
         "engines": lambda tier: [_e("release", "packmc", "c10"), dict(_short_reads(_e("release", "packmc", "c10")), side=True)],
         "assumptions": [
-            "logical containers: shapes small/multi/multi2 (+big in thorough) x 4 compressions; the reference model is the logical dump of the spec",
+            "logical containers: shapes small/multi/multi2 x 4 compressions, big (400 entries, directory pack above 4 KiB) uncompressed (+zstd in thorough); the reference model is the logical dump of the spec",
             "a prefix that is itself a CRC-valid pack header is outside the enumeration (the reader documents that a valid header at offset 0 wins)",
             "environment answer: the whole enumeration is repeated with every read(2) on a pack file returning at most 13 bytes (LD_PRELOAD shim shim/shortread.c; a probe read proves the shim is in the process); other short-read sizes and interrupted reads are not enumerated",
         ],
